@@ -232,7 +232,14 @@ CLAIMED = {
              "(trim_rule); '-' on the right removes exactly the following whitespace (minus_right); with C39's "
              "removed_is_whitespace/lex_lossless non-whitespace is never removed from any source. Tie: text-tag-text triples "
              "with every sign combination x 12x12 whitespace runs (exhaustive in thorough), raw blocks with signs on four "
-             "sides, random skeletons, x 4 trim/lstrip settings x 3 delimiter sets x 3 ways of building the environment.",
+             "sides, random skeletons, x 4 trim/lstrip settings x 3 delimiter sets x 11 ways of building the environment "
+             "(fresh; Template(...); overlay of a used parent overriding everything / only whitespace options / one "
+             "whitespace option / only delimiters; overlay chain used at each level; overlay of a fresh parent; sibling "
+             "overlays; parent after its overlays were used). Environment histories (harness/envways.py): for 4+ root option "
+             "sets and every override set (each of trim_blocks, lstrip_blocks, newline_sequence, keep_trailing_newline alone, "
+             "all combinations, line prefixes, delimiters, mixtures, none) overlays of fresh and of already used "
+             "Environment/Template roots, siblings, chains of depth 3, parents re-used after their overlays, random "
+             "histories; at every use the render must equal the Lean reference trim-env for the options in effect.",
         note="Trusted: Lean kernel; lexer model (differentially validated, C39); the reference Spec/Trim.lean is tied to the "
              "real renderer by correspondence; that the lexer model equals the reference on every skeleton is tested, not "
              "proved (partial with respect to DESIGN's lex_skeleton).",
@@ -250,7 +257,14 @@ CLAIMED = {
              "key (lexer_cache_transparent). Tie: random skeletons unparsed by the Lean reference into 8 delimiter sets x 4 "
              "trim/lstrip settings and rendered through Environment / Template(...) / overlay / overlay chains, interleaved; "
              "60-200 further configurations cycle the caches and the first environments are re-checked; whole-line tags and "
-             "comments rewritten as line statements/comments (3 prefix sets).",
+             "comments rewritten as line statements/comments (3 prefix sets). Environment histories (harness/envways.py): for "
+             "4+ root option sets and every override set (each of trim_blocks, lstrip_blocks, newline_sequence, "
+             "keep_trailing_newline alone, all 11 combinations, line prefixes both/one/removed, delimiter sets, mixtures, "
+             "none) an overlay of the fresh and of the already used root (Environment(...) or Template(...).environment), "
+             "sibling overlays of one used parent, overlay chains of depth 3 used at each level, every parent used again "
+             "after its overlays, plus random histories; at every use skeletons sensitive to all four whitespace options "
+             "and line-statement sources must render as in a fresh Environment with the options in effect, as the Lean "
+             "reference trim-env / lexer model say, and (trim+lstrip) as the block-tag form.",
         note="Trusted: Lean kernel; translator; the delimiter-translation and line-statement equivalences are correspondence "
              "(metamorphic) only. Known finding: a whole-line *comment* written as line comment keeps its newline.",
         design_ref="§5 C13",
